@@ -34,7 +34,15 @@ void __sanitizer_weak_hook_strcmp(void *pc, const char *s1, const char *s2, int 
 	verif_strs[i].b[VERIF_STRLEN - 1] = 0;
 }
 
-void __sanitizer_cov_8bit_counters_init(uint8_t *start, uint8_t *stop) {}
+// The compiler also gives every basic-block edge of the instrumented packages an 8-bit execution counter (it wraps from
+// 255 to 1, never back to 0); the runtime announces the counter section once at start-up.
+static uint8_t *cnt_start = 0, *cnt_stop = 0;
+void __sanitizer_cov_8bit_counters_init(uint8_t *start, uint8_t *stop) {
+	if (!cnt_start) { cnt_start = start; cnt_stop = stop; }
+}
+size_t verif_cnt_len(void) { return cnt_start ? (size_t)(cnt_stop - cnt_start) : 0; }
+void verif_cnt_zero(void) { if (cnt_start) memset(cnt_start, 0, (size_t)(cnt_stop - cnt_start)); }
+void verif_cnt_copy(uint8_t *dst) { if (cnt_start) memcpy(dst, cnt_start, (size_t)(cnt_stop - cnt_start)); }
 void __sanitizer_cov_pcs_init(const uintptr_t *beg, const uintptr_t *end) {}
 
 void verif_reset(void) {
